@@ -215,6 +215,8 @@ func roundTrip(c *C, r *Root, m protoreflect.Message, dyn bool) {
 	if c.HasModel() {
 		// model encodes the same content: exact deterministic bytes
 		c.Compare("encdet: model deterministic bytes vs proto.Marshal(Deterministic)", in, vh.Hex(det), c.Ask("encdet 0 %s", snap))
+		// the hypothesis of theorem C03.decode_encode (WF) holds of every real message: the theorem is not vacuous
+		c.Compare("wf: the model's well-formedness predicate (hypothesis of C03.decode_encode) holds of a real message", in, "1", c.Ask("wf 0 %s", snap))
 		// model decodes the implementation's default (non-deterministic order) output
 		want := "ok " + snap
 		c.Compare("dec: model decoding of the implementation's bytes vs the message", in, want, c.Ask("dec 0 10000 0 %s", vh.Hex(def)))
